@@ -661,6 +661,30 @@ def range_norm_rule(rep, prog, cfg):
 
 
 
+def range_owner_rule(rep, prog, cfg):
+    """Ranges reach the wire normalised (inclusive / exclusive / open bounds, saturating end): that is decided on the constructors of
+    the range type (C15.range-norm).  It holds for every range only if nobody else builds one: a `SongRange { from, to }` written out in a
+    command constructor bypasses the normalisation — and the invariants other commands rely on (`move` needs a closed end)."""
+    rule = "C15.range-norm"
+    inside, outside = 0, []
+    for b in prog.bodies.values():
+        if b.crate != "mpd_client" or b.raw.get("derived"):
+            continue
+        root = prog.bodies.get(b.root, b)
+        for bb, i, st in b.stmts():
+            if st["k"] == "assign" and st["rv"]["k"] == "agg" and st["rv"].get("agg") == "adt" and norm(st["rv"].get("adt_name") or "").endswith("definitions::SongRange"):
+                if norm(root.name).startswith("mpd_client::commands::definitions::SongRange::"):
+                    inside += 1
+                else:
+                    outside.append((norm(root.name), b.loc(st.get("span") or b.span)))
+    for name, where in outside:
+        rep.fail(rule, "%s/%s builds a range itself" % (cfg, name), where,
+                 "%s constructs a SongRange without going through the range type's normalising constructors: bounds written here are not the "
+                 "`START:END` the reference table was decided for (e.g. an open end where `move` needs a closed one, no saturation at the maximum)" % name)
+    rep.check(inside >= 1, rule, cfg + "/ranges are built by the range type's constructors", "definitions.rs",
+              "no construction of SongRange found inside its own constructors (anchor moved: failing closed)", detail={"constructions": inside})
+
+
 def builder_rule(rep, prog, cfg):
     """Builder methods that take the command by value: every parameter the caller already gave (every field of `self`) reaches
     the command that is returned, unless the method replaces exactly that field by one of its own parameters.  A field that is
@@ -956,4 +980,5 @@ def run(rep, progs, tier):
         enums_rule(rep, prog, cfg)
         overflow_rule(rep, prog, cfg)
         range_norm_rule(rep, prog, cfg)
+        range_owner_rule(rep, prog, cfg)
         choke_rule(rep, prog, cfg)
